@@ -178,6 +178,28 @@ def run(ctx, R, tier):
                     be = bool_edges(pb, re_[0])
                     if be is not None:
                         c03.silent_exit(F, R, pb, be[1], 'B.C10.starve', 'silent', what='starving decoder')
+        # "playback continues from where it stopped to within a frame": the loop that steps through source frames
+        # (`while fractional_position >= 1.0 { fractional_position -= 1.0; pop }`) is left only through its own guard, so
+        # the fraction is below one after it whatever the ring buffer held; and every iteration takes one off
+        fl = None
+        for l in pb.loops():
+            h = pb.blocks[l['header']]['term']
+            if h['k'] == 'switch' and 'fractional_position' in describe(pb, h['op'], depth=4, at=l['header']) \
+                    and describe(pb, h['op'], depth=4, at=l['header']).startswith(('Ge(', 'Gt(', 'Lt(', 'Le(')):
+                fl = l
+        if R.check(fl is not None, 'B.C10.resume', 'anchor', 'the fractional stepping loop of StreamingSound::process was not found'):
+            from ..rt import dead_end
+            exits = [(x, y) for x in fl['blocks'] for y in pb.succ(x) if y not in fl['blocks'] and not dead_end(pb, y)]
+            subs = [x for x, si, st in pb.stmts() if x in fl['blocks'] and st['k'] == 'assign' and st['rv']['k'] == 'bin'
+                    and st['rv']['op'] == 'Sub' and pretty_place(pb, st['lhs']).endswith('.fractional_position')
+                    and describe(pb, st['rv']['b']) == '1.0']
+            body_entry = [y for y in pb.succ(fl['header']) if y in fl['blocks']]
+            ok = all(x == fl['header'] for x, _ in exits) and len(subs) == 1 and must_pass(pb, body_entry, [fl['header']], subs)
+            R.check(ok, 'B.C10.resume', 'frac-loop',
+                    'the frame-stepping loop of StreamingSound::process can be left other than through `fractional_position >= 1.0` '
+                    'being false, or an iteration does not take 1.0 off: after an underrun the fraction exceeds one, the next frame is '
+                    'extrapolated (foreign audio) and playback jumps ahead by the length of the stall',
+                    detail={'exits': len(exits), 'decrements': len(subs)}, where=pb.where(fl['header']))
         # consumer order: reached_end() loaded before is_empty()
         re2 = [x for x, t in pb.calls() if (callee_path(t) or '').endswith('Shared::reached_end') and pb.in_loop(x)]
         ie = [x for x, t in pb.calls() if (callee_path(t) or '').endswith('rtrb::Consumer::<T>::is_empty')]
